@@ -129,7 +129,12 @@ class C07(Prop):
             "admissible split is expanded three times (solution, damped trial, solution again) "
             "with a check that neither the argument nor the stored Schur data changed; 40% of "
             "the unscaled cases hand an explicit state different from the stored values to "
-            "every assembly (operators and reference system evaluated at that state); 30% "
+            "every assembly (operators and reference system evaluated at that state); the "
+            "first four cases of every run and 10% of the others: three variables s, t, u on one "
+            "subdomain with diagonal closure equations (pairwise distinct entries) registered "
+            "in the order t, u, s, eliminated together through the default inverter (secondary "
+            "block = permuted diagonal of scalar blocks, a 3-cycle; also with grid-excluded "
+            "primary rows stacked on top, and mixed with 2x2 blocks); 30% "
             "directed insertion orders: a wholly secondary equation set BEFORE a primary "
             "equation restricted to a subset of its grids; non-trivial = at least two admissible splits with different "
             "secondary blocks on one system; distinct by (case, output)")
@@ -299,13 +304,86 @@ class C07(Prop):
         rng.shuffle(pv)
         return [pe, pv]
 
+    def _perm_case(self, rng, spec, sds, intfs, mix):
+        """directed: a primary variable 0 and three variables s, t, u (1, 2, 3) created in this
+        order on the same subdomain, whose closure equations are diagonal in their own variable
+        with pairwise distinct entries and are registered in the order t, u, s: with variable
+        0 primary the secondary block is a PERMUTED diagonal (scalar blocks, rows in another
+        order than the columns, a 3-cycle of blocks, i.e. not an involution).  [mix]: the
+        equation of u also couples its dofs in pairs (scalar blocks and 2x2 blocks mixed)."""
+        cells0 = sds[0][0]
+        c = 2 if cells0 == 1 else 1
+        n = cells0 * c
+        g0 = rng.sample(range(len(sds)), rng.randint(1, min(len(sds), 2)))
+        vars_ = [[0, [1, 0, 0], "sd", g0]] + [[k, [c, 0, 0], "sd", [0]] for k in (1, 2, 3)]
+        lay = VarLayout(sds, intfs, vars_)
+        state = [rng.randint(-2, 2) for _ in range(lay.total)]
+        prim_atoms = list(lay.groups[0])
+        diag_pool = rng.sample(range(9, 9 + 6 * n + 12), 3 * n)
+        operators = []
+        # equation of the primary variable: as in the random systems (diagonal + couplings)
+        terms, off = [], 0
+        order0 = sorted(range(len(g0)), key=lambda j: grank(sds, ("sd", g0[j])))
+        for j in order0:
+            a = lay.groups[0][j]
+            trip = []
+            for i in range(lay.size(a)):
+                trip.append([off + i, i, rng.randint(9, 12)])
+                for _b in range(2):
+                    if rng.random() < 0.5:
+                        b = rng.randrange(len(lay.atoms))
+                        if b != a:
+                            terms.append(["lin", [[b, [[off + i, rng.randrange(lay.size(b)),
+                                                       rng.choice([-1, 1])]]]]])
+            terms.append(["lin", [[a, trip]]])
+            off += lay.size(a)
+        operators.append({"rows": off, "terms": terms,
+                          "const": [rng.randint(-4, 4) for _ in range(off)]})
+        for k in (1, 2, 3):
+            a = lay.groups[k][0]
+            trip = [[i, i, diag_pool[(k - 1) * n + i]] for i in range(n)]
+            if mix and k == 3 and n % 2 == 0:
+                trip += [[i, i ^ 1, rng.choice([-1, 1])] for i in range(n)]
+            terms = [["lin", [[a, trip]]]]
+            for i in range(n):
+                if rng.random() < 0.6:
+                    b = rng.choice(prim_atoms)
+                    terms.append(["lin", [[b, [[i, rng.randrange(lay.size(b)),
+                                               rng.choice([-2, -1, 1, 2])]]]]])
+                if rng.random() < 0.3:
+                    b1, b2 = rng.choice(prim_atoms), rng.choice(prim_atoms)
+                    terms.append(["prod", [[b1, [[i, rng.randrange(lay.size(b1)), 1]]],
+                                           [b2, [[i, rng.randrange(lay.size(b2)), 1]]]]])
+            operators.append({"rows": n, "terms": terms,
+                              "const": [rng.randint(-4, 4) for _ in range(n)]})
+        eqs = [[k, k, [["sd", 0]], [c, 0, 0]] for k in (2, 3, 1)]          # t, u, s
+        eqs.insert(rng.randint(0, 3), [0, 0, [["sd", g] for g in g0], [1, 0, 0]])
+        splits = [self._split(rng, vars_, lay, eqs, "plain", force_P=[0])]
+        if len(g0) > 1:
+            # excluded rows of the primary equation stacked on top of the permuted diagonal
+            splits.append(self._split(rng, vars_, lay, eqs, "restricted", force_P=[0],
+                                      force_restrict={0: [rng.choice(g0)]}))
+        splits.append(self._split(rng, vars_, lay, eqs, "plain",
+                                  force_P=[0, rng.choice([1, 2, 3])]))
+        rng.shuffle(splits)
+        case = {"grid": spec, "sds": sds, "intfs": intfs, "vars": vars_, "state": state,
+                "operators": operators, "eqs": eqs, "splits": splits}
+        if rng.random() < 0.3:
+            case["state2"] = [rng.randint(-2, 2) for _ in state]
+        return case
+
     def generate(self, rng, n, tier):
         pool = QUICK_GRIDS if tier == "quick" else THOROUGH_GRIDS
         cap = 40 if tier == "quick" else 60
-        for _ in range(n):
+        for idx in range(n):
             spec = rng.choice(pool)
             sds, intfs = grid_numbers(spec)
             mode = rng.random()
+            if idx < 4 or mode > 0.9:
+                # the first four cases of every run (two pure, two mixed) and 10% of the rest
+                yield self._perm_case(rng, spec, sds, intfs,
+                                      mix=(idx in (2, 3)) or (idx >= 4 and rng.random() < 0.4))
+                continue
             vars_, lay, state, operators, eqs, twin, scaled = self._system(
                 rng, sds, intfs, cap, twin=mode < 0.3, scaled=mode < 0.15)
             splits = []
